@@ -8,6 +8,7 @@ import (
 
 	"github.com/woodsbury/decimal128"
 	"github.com/woodsbury/jmespath/internal/verifmc/core"
+	"github.com/woodsbury/jmespath/internal/verifmc/ref"
 )
 
 // C18 — results are plain JSON values that can be queried and serialised again
@@ -47,7 +48,7 @@ func c18Docs(thorough bool) []doc {
 var c18First = []string{
 	"@", "s", "n", "a", "sa", "o", "oa", "p", "missing", "a[0]", "a[-1]", "a[1:]", "a[::-1]", "a[*]", "a[]", "oa[*].k", "oa[?n > `1`]", "oa[?n > `1`].k", "o.*", "*", "oa[*].*", "[s, n]", "{x: s, y: a}",
 	"oa[*].{x: k}", "oa[*].[k, n]", "a | [0]", "`[1,null,{\"a\":[]}]`", "`{\"a\":null}`", "'raw'", "`1.50`", "`null`", "`7 `", "`-1.5\n`", "`0\t`", "` [1, 2 ] `", "`{\"a\": 1 } `", "[`7 `, `8`]", "`9e6144` / `1e-40`", "[`9e6144` / `1e-40`, n]", "`-9e6144` * `1e40`", "map(&(@ / `1e-6100`), `[9e6000]`)", "{q: `1e6144` / `0.001`}", "n + n", "n - `0.5`", "n * n", "n / `4`", "n // `2`", "n % `2`", "-n", "+n",
-	"n == n", "n < `2`", "s == 'a,b'", "!s", "s && n", "missing || a", "let $v = a in [$v, $v]", "let $v = n in oa[*].[$v, n]",
+	"n == n", "n < `2`", "s == 'a,b'", "!s", "s && n", "missing || a", "let $v = a in [$v, $v]", "let $v = n in oa[*].[$v, n]", "let $v = n in a", "let $v = s in oa", "let $v = a, $w = s in o", "let $v = n in let $w = $v in sa",
 	"abs(n)", "avg(a[?@])", "ceil(n)", "contains(a, `1`)", "contains(s, 'a')", "ends_with(s, 'b')", "find_first(s, 'b')", "find_last(s, 'a', `0`)", "floor(n)", "from_items(p)", "group_by(oa, &k)",
 	"items(o)", "join('-', sa)", "keys(o)", "length(a)", "length(s)", "length(o)", "lower(s)", "map(&k, oa)", "map(&[@], a)", "max(a[?@])", "max(sa)", "max_by(oa, &n)", "merge(o, {z: n})", "min(a[?@])",
 	"min_by(oa, &n)", "not_null(missing, n)", "pad_left(s, `6`)", "pad_right(s, `6`, '-')", "replace(s, 'a', 'zz')", "replace(s, 'a', 'b', `1`)", "reverse(a)", "reverse(s)", "sort(a[?@])", "sort(sa)",
@@ -62,6 +63,8 @@ var c18Second = []string{
 	"abs(@)", "ceil(@)", "sum(@)", "max(@)", "join(',', @)", "contains(@, `1`)", "to_number(@)", "lower(@)", "[@]", "{v: @}", "@[0]", "@.*", "@ < `2`", "-@", "!@", "@ && 'y'", "map(&type(@), @)", "sort_by(@, &n)",
 	"group_by(@, &k)", "from_items(@)", "merge(@, @)", "zip(@, @)", "[*].k", "[*].n", "length(to_string(@))", "split(@, ',')", "pad_left(@, `4`)", "trim(@)", "find_first(@, 'a')", "floor(@)", "avg(@)", "min(@)",
 	"upper(@)", "starts_with(@, 'a')", "replace(@, 'a', 'b')", "type(@[0])", "[*][0]", "x", "[?k == 'x']", "k.type(@)", "[0].type(@)", "(k | type(@))", "k.not_null(@, 'd')", "x.to_array(@)", "[0] | [0].to_string(@)", "k.k.length(to_array(@))", "@ * `2` == @ + @", "[::-1]", "*.k", "to_array(@)[0]", "@ == `[]`", "@ == `null`",
+	// probes that bind variables of their own (to null, to a part of the result) under names the first expression may have used
+	"let $v = missing in [$v, type($v)]", "let $v = `null` in type($v)", "let $v = @[99] in [$v]", "let $v = @ in let $v = missing in type($v)", "let $w = missing, $v = [0] in [$v, $w]", "let $v = @ in [*].[type($v)]",
 }
 
 func init() {
@@ -69,9 +72,9 @@ func init() {
 		ID:    "C18",
 		Title: "results are plain JSON values that can be queried and serialised again",
 		Rule: "every pair (e1, e2) of the first-expression menu (all built-ins with succeeding arguments, all core constructs, empty-input cases) and the second-expression probe menu is evaluated on every document: the result of e1 is walked for non-JSON parts, " +
-			"serialised with encoding/json and decoded again, e2 is searched over the live result and over the decoded result, and both must equal the one-shot search of `e1 | e2`; non-trivial = e1 and e2 both yield a non-null, non-empty value; " +
+			"serialised with encoding/json and decoded again, e2 is searched over the live result and over the decoded result, and both must equal the one-shot search of `e1 | e2`; the same with every expression of the C01 space and every call of the C02 call space as e1; non-trivial = e1 and e2 both yield a non-null, non-empty value; " +
 			"distinct_nontrivial counts distinct such outcomes",
-		Phases:      []core.Phase{{Name: "closure", Build: "instr", Fn: c18Run}, {Name: "core-closure", Build: "instr", Fn: c18RunCore}},
+		Phases:      []core.Phase{{Name: "closure", Build: "instr", Fn: c18Run}, {Name: "core-closure", Build: "instr", Fn: c18RunCore}, {Name: "calls-closure", Build: "instr", Fn: c18RunCalls}},
 		Judge:       c18Judge,
 		Assumptions: []string{"e2 mentions neither the root node nor outer variables", "input documents are JSON decoded with UseNumber"},
 	})
@@ -222,6 +225,36 @@ func c18Run(r *core.Run) {
 
 func c18Judge(r *core.Run, phase string, pt map[string]any) *core.Violation {
 	return c18Check(r, pstr(pt, "e1"), pstr(pt, "e2"), mkDoc(pstr(pt, "doc")))
+}
+
+// c18RunCalls drives the closure oracle with every call of the C02 call space as e1 (each on its own document).
+func c18RunCalls(r *core.Run) {
+	core.EnableTicks(c02TickBudget)
+	probes := []string{"type(@)", "length(@)", "[0]", "[*]", "to_string(@)", "join('-', @)", "@ == @", "keys(@)"}
+	r.Bound("calls_probes", probes)
+	n := 0
+	for _, name := range ref.FunctionNames() {
+		c02Calls(name, r.Thorough(), func(c c02Call) {
+			n++
+			if !r.Mine(n) || r.Expired() {
+				return
+			}
+			if strings.HasPrefix(c.Expr, "let ") {
+				return // `let ... in e1 | e2` would put e2 inside the let body
+			}
+			if strings.HasPrefix(name, "pad_") && strings.Contains(c.Expr, "9223372036854775807") {
+				return // a legitimately enormous result
+			}
+			r.Add("states", 1)
+			d := mkDoc(c.Doc)
+			for _, e2 := range probes {
+				r.Begin(map[string]any{"expr": c.Expr + " | " + e2, "doc": c.Doc})
+				if v := c18Check(r, c.Expr, e2, d); v != nil {
+					r.Violate(v)
+				}
+			}
+		})
+	}
 }
 
 // c18RunCore drives the closure oracle with every expression of the C01 space as e1.
